@@ -25,7 +25,13 @@ NONE_NAME = "<none>"          # Task.resource = None (JSON has no null for TLC)
 
 
 def rname_of(name):
-    return None if name == NONE_NAME else name
+    """model name -> the name used with the library: '' and 0 are names like any other, distinct from None"""
+    return {NONE_NAME: None, "<empty>": "", "<zero>": 0}.get(name, name)
+
+
+def aid(I, k):
+    """model id -> the id used with the library (some inputs mix int and str ids in one WBS)"""
+    return "T%d" % k if I.get("strids") and k % 2 == 0 else k
 
 
 def q4(k):
@@ -48,6 +54,7 @@ def cal_pool(base_day):
         ("all2", W([0, 1, 2, 3, 4, 5, 6], cal.q(2)), True, False),
         ("half", W([0, 1, 2, 3, 4], cal.q(1, 2)), True, False),
         ("mix", cal.weekly_dict({0: cal.q(8), 1: cal.q(4), 3: cal.q(1), 5: cal.q(2)}), True, False),
+        ("uneven", cal.weekly_dict({0: cal.q(2), 1: cal.q(8), 2: cal.q(8), 3: cal.q(8), 4: cal.q(8)}), True, False),
         ("dated|wk", cal.op("|", D({b + 1: cal.q(3), b + 2: cal.q(0), b + 3: cal.q(6)}), W([0, 1, 2, 3, 4], cal.q(8))),
          True, False),
         ("wk-1", cal.op("-", W([0, 1, 2, 3, 4], cal.q(8)), cal.number(cal.q(2))), True, False),
@@ -192,9 +199,17 @@ def gen_case(rng, direction, n, cid, opts=None):
             ext.append({"start": MISSING if rng.random() < 0.5 else e_end - DAY, "end": MISSING})
         else:
             ext.append({"start": e_end - DAY, "end": e_end})
-        tasks[rng.randint(1, n) - 1]["pre"].append(n + 1)
+        holder = rng.randint(1, n)
+        tasks[holder - 1]["pre"].append(n + 1)
         ext[0]["inwbs"] = rng.random() < 0.5
         ext[0]["id"] = rng.choice(ids) if rng.random() < 0.4 else 9001      # may collide with a member's id
+        if ext[0]["id"] != 9001 and rng.random() < 0.6:
+            # ... and the member with that id is a prerequisite of the same task, listed after the outside one
+            twin = ids.index(ext[0]["id"]) + 1
+            if legal_link(tasks, holder, twin) and twin not in tasks[holder - 1]["pre"]:
+                tasks[holder - 1]["pre"].append(twin)
+        # the outside task may be a FORMER member: removed from this WBS while the link to it stayed
+        ext[0]["removed"] = ext[0]["id"] == 9001 and rng.random() < 0.3
         # the outside predecessor may wait for an unscheduled task of its own project: none of this WBS's business
         ext[0]["chain"] = rng.random() < 0.4
     # backward: a successor outside the WBS that has no dates (an unscheduled task of another project) says
@@ -205,6 +220,8 @@ def gen_case(rng, direction, n, cid, opts=None):
     # resources
     pool = cal_pool(base)
     names = ["A", "B", NONE_NAME]
+    if rng.random() < 0.15:
+        names = [rng.choice(["<empty>", "<zero>", "default"]), "A", NONE_NAME]
     resources = []
     used = {}
     never_ok = opts.get("never", rng.random() < 0.06)
@@ -284,10 +301,28 @@ def gen_case(rng, direction, n, cid, opts=None):
             elif r < 0.12:
                 t["fstart"] = now - rng.choice([2, 5]) * DAY
                 t["fend"] = t["fstart"] + rng.choice([0, 600, DAY])      # completed in the past
+                if now % DAY >= 120 and rng.random() < 0.3:
+                    t["fend"] = now - 90                                 # ... on the clock's own day, before the clock
     I = {"dir": direction, "balance": opts.get("balance", rng.random() < 0.7),
          "submin": rng.choice([0, 0, 0, 1, 30, 59]) * 1000000 + rng.choice([0, 0, 250000, 999000]),
-         "defEst": q4(rng.choice([0, 0, 8])), "pstart": pstart, "now": now, "tasks": tasks, "roots": roots,
-         "resources": resources, "ext": ext, "xsucc": xsucc, "tod": any(r["calname"] in ("tod-end", "div0") for r in resources)}
+         "defEst": q4(rng.choice([0, 0, 8, 10, 1])), "pstart": pstart, "now": now, "tasks": tasks, "roots": roots,
+         "resources": resources, "ext": ext, "xsucc": xsucc, "strids": rng.random() < 0.08,
+         "noise": False, "tod": any(r["calname"] in ("tod-end", "div0") for r in resources)}
+    for t in tasks:
+        t["noise"] = 0
+    if rng.random() < 0.06:
+        # float residues: remaining work of 5.5e-17, or an estimate a hair below / above a quarter unit.  The model
+        # works with exact rationals and cannot see them: such inputs are judged for C14, C06 and the start-day
+        # clause of C04 only (flag `noise`)
+        leaves = [t for t in tasks if not t["kids"] and not t["ms"] and t["fend"] == MISSING]
+        if leaves:
+            t = rng.choice(leaves)
+            t["noise"] = rng.choice([1, 2, 2, 3])
+            if t["noise"] == 1:
+                t["est"], t["spent"] = [3, 10], [3, 10]
+            else:
+                t["est"] = q4(8 * 4)         # a whole day of the usual calendars: the residue is all that is left of it
+            I["noise"] = True
     return {"id": cid, "I": I}
 
 
@@ -300,6 +335,17 @@ def inst(m):
 
 def qnum(qv):
     return None if qv == NOQ else cal.num(qv)
+
+
+def noisy(t, fld):
+    """the python number for a model amount; inputs flagged `noise` carry float residues the model cannot see"""
+    v = qnum(t[fld])
+    k = t.get("noise", 0)
+    if k == 1:
+        return 0.1 + 0.2 if fld == "est" else 0.3            # remaining work 5.5e-17
+    if k in (2, 3) and fld == "est" and v:
+        return v - 9e-10 if k == 2 else v + 9e-10
+    return v
 
 
 def build_wbs(I, keep=None):
@@ -317,17 +363,17 @@ def build_wbs(I, keep=None):
             kw["end"] = inst(t["fend"])
         if t["minStart"] != MISSING:
             kw["min_start"] = inst(t["minStart"])
-        objs[i] = pj.Task(t["id"], name=None if t["id"] % 5 == 0 else "T%d" % t["id"], resource=rname_of(I["resources"][t["res"] - 1]["name"]),
-                          estimate=qnum(t["est"]), spent=qnum(t["spent"]), milestone=t["ms"],
+        objs[i] = pj.Task(aid(I, t["id"]), name=None if t["id"] % 5 == 0 else "T%d" % t["id"], resource=rname_of(I["resources"][t["res"] - 1]["name"]),
+                          estimate=noisy(t, "est"), spent=noisy(t, "spent"), milestone=t["ms"],
                           tag="x%d" % i, note=None if i % 2 else "", **kw)
     exts = []
     other = pj.WBS()
     for k, e in enumerate(I["ext"], start=1):
         # an outside predecessor: free-standing or a member of another WBS; its id may equal a member's id
-        x = pj.Task(e.get("id", 9000 + k), name="ext%d" % k,
+        x = pj.Task(aid(I, e.get("id", 9000 + k)), name="ext%d" % k,
                     start=None if e["start"] == MISSING else inst(e["start"]),
                     end=None if e["end"] == MISSING else inst(e["end"]))
-        if e.get("inwbs"):
+        if e.get("inwbs") and not e.get("removed"):
             other.roots.append(x)
         if e.get("chain"):
             x.predecessors = [pj.Task(9500 + k, name="extpre%d" % k, estimate=8)]
@@ -352,6 +398,10 @@ def build_wbs(I, keep=None):
                 pre.append(objs[p])
         if pre:
             objs[i].predecessors = pre
+    for k, e in enumerate(I["ext"], start=1):
+        if e.get("removed"):
+            w.roots.append(exts[k - 1])
+            w.remove(exts[k - 1])
     for k, e in enumerate(I.get("xsucc", []), start=1):
         if e["t"] in objs:
             sx = pj.Task(9600 + k, name="extsucc%d" % k, estimate=8)
@@ -366,6 +416,8 @@ def make_scheduler(I, res=None):
     if res is None:
         res = [pj.Resource(rname_of(r["name"]), cal.build(r["expr"])) for r in I["resources"] if r["supplied"]]
     sub = _dt.timedelta(microseconds=I.get("submin", 0))
+    if I.get("submin", 0) % 2 == 0 and I["balance"]:
+        res = (r for r in res)              # the resources as a one-shot iterable
     if I["dir"] == "fwd":
         return pj.ForwardScheduler(start=inst(I["pstart"]) + sub, resources=res, balance_resources=I["balance"],
                                    default_estimate=cal.num(I["defEst"]))
@@ -436,15 +488,15 @@ def project_wbs(w, with_dates=True):
         d = t.to_dict()
         d["estimate"] = t.estimate
         d["spent"] = t.spent
-        rec = {"id": t.id, "par": t.parent.id if t.parent else 0, "kids": [c.id for c in t.children],
-               "pre": sorted(p.id for p in t.predecessors), "suc": sorted(s.id for s in t.successors)}
+        rec = {"id": repr(t.id), "par": repr(t.parent.id) if t.parent else "", "kids": [repr(c.id) for c in t.children],
+               "pre": sorted(repr(p.id) for p in t.predecessors), "suc": sorted(repr(s.id) for s in t.successors)}
         if with_dates:
             rec["attrs"] = sorted((k, repr(v)) for k, v in d.items())
         else:
             rec["custom"] = sorted((k, repr(v)) for k, v in d.items()
                                    if k not in ("start", "end", "estimate", "spent", "id"))
         out.append(rec)
-    return {"roots": [t.id for t in w.roots], "tasks": out}
+    return {"roots": [repr(t.id) for t in w.roots], "tasks": out}
 
 
 def extract(I, sched, numbers):
@@ -455,10 +507,10 @@ def extract(I, sched, numbers):
     byid = {}
     for t in sched.schedule.tasks:
         byid.setdefault(t.id, t)
-    num_of_id = {I["tasks"][i - 1]["id"]: i for i in numbers}
+    num_of_id = {aid(I, I["tasks"][i - 1]["id"]): i for i in numbers}
     idx_of = {id(t): num_of_id.get(t.id, 0) for t in sched.schedule.tasks}     # rows name result objects
     for i in numbers:
-        t = byid.get(I["tasks"][i - 1]["id"])
+        t = byid.get(aid(I, I["tasks"][i - 1]["id"]))
         if t is None:
             continue
         for fld, key in (("start", t.start), ("end", t.end)):
@@ -491,6 +543,19 @@ def extract(I, sched, numbers):
     return R
 
 
+def _as_a_caller_would(w):
+    """things a caller may do before scheduling that must not matter: look at the plan's dates, take the default
+    week table and edit the copy"""
+    pj = common.pjplan()
+    try:
+        w.start, w.end
+        h = pj.DEFAULT_CALENDAR.get_week_day_hours()
+        h[5] = 4
+        h[0] = 10
+    except Exception:
+        pass
+
+
 def execute(case):
     """Run the real scheduler on the case; fills R and all observations."""
     I = case["I"]
@@ -498,6 +563,7 @@ def execute(case):
     numbers = list(range(1, n + 1))
     common.set_now(inst(I["now"]))
     w, objs, exts = build_wbs(I)
+    _as_a_caller_would(w)
     before = project_wbs(w)
     s = make_scheduler(I)
     out, sc = guarded(lambda: s.calc(w))
@@ -559,7 +625,7 @@ def execute(case):
         case["obs"]["reserved"].append({"r": k, "d": d, "u": ask(lambda: rep.reserved(resobj[k], inst(d * DAY)))})
     byid = {I["tasks"][i - 1]["id"]: i for i in numbers}
     for i in numbers[:4]:
-        tid = I["tasks"][i - 1]["id"]
+        tid = aid(I, I["tasks"][i - 1]["id"])
         try:
             rows = rep.rows(lambda r, tid=tid: r.task.id == tid)
             case["obs"]["filt"].append({"t": i, "n": len(rows), "u": cal.to_q(sum((r.units for r in rows), 0))})
@@ -865,7 +931,7 @@ def _design_drift(cases, log, limit, direction, module):
     fwd = [{"id": c["id"], "I": c["I"], "R": {"out": c["R"]["out"], "start": c["R"]["start"], "end": c["R"]["end"],
                                               "rows": c["R"]["rows"]}}
            for c in cases if c["I"]["dir"] == direction and c["R"]["out"] in ("ok", "RuntimeError")
-           and not c["R"]["overflow"] and not c["I"].get("tod") and not (direction == "bwd" and any(t["fstart"] != MISSING for t in c["I"]["tasks"]))]
+           and not c["R"]["overflow"] and not c["I"].get("tod") and not c["I"].get("noise") and not (direction == "bwd" and any(t["fstart"] != MISSING for t in c["I"]["tasks"]))]
     fwd = fwd[:limit]
     if not fwd:
         return {"replayed": 0}
